@@ -23,7 +23,7 @@ def build_source(case):
     po = [p for p in ps if p[1] == "po"]
     for i, p in enumerate(ps):
         name, kind, dflt, ann = p
-        a = (": A" if ann == "arr" else ": int" if ann == "int" else "") if case["callable"] != "lambda" else ""
+        a = (": A" if ann == "arr" else ": int" if ann == "int" else ": Tok" if ann == "cls" else "") if case["callable"] != "lambda" else ""
         d = " = DFLT" if dflt else ""
         if kind == "ko" and not seen_star and not any(q[1] == "vp" for q in ps):
             pieces.append("*"); seen_star = True
@@ -45,6 +45,11 @@ def build_source(case):
     retexpr = first_arr if (first_arr and case.get("ret_annot")) else "RESULT"
     if case["callable"] == "lambda":
         return "%s = lambda %s: (%s, %s)[1]" % (case["fname"], ", ".join(pieces), rec, retexpr), retexpr
+    if case["callable"] == "wraps":
+        # the decorated object is a functools.wraps wrapper taking (*args, **kwargs) that looks at the RAW call
+        inner = "def _inner(%s)%s:\n    '''doc of %s'''\n    %s\n    return %s\n" % (", ".join(pieces), ret, case["fname"], rec, retexpr)
+        outer = ("@functools.wraps(_inner)\ndef %s(*args, **kwargs):\n    LOG.append(('raw', len(args), tuple(sorted(kwargs))))\n    return _inner(*args, **kwargs)\n" % case["fname"])
+        return "import functools\n" + inner + outer, retexpr
     kw = "async def" if case["callable"] == "async" else "def"
     body = "    '''doc of %s'''\n    %s\n" % (case["fname"], rec)
     if case["callable"] == "gen":
@@ -78,8 +83,10 @@ def run_case(case):
     result_obj = object()
     dflt_obj = np.zeros((4,), "float32")
     fns = {}
+    Tok = type("Tok", (), {})              # a class created per function (same name and text every time)
+    TokOther = type("Tok", (), {})
     for which in ("plain", "wrapped"):
-        g = {"A": A, "DFLT": dflt_obj, "RESULT": result_obj, "LOG": logs[which], "__name__": "genmod"}
+        g = {"A": A, "DFLT": dflt_obj, "RESULT": result_obj, "LOG": logs[which], "__name__": "genmod", "Tok": Tok}
         try:
             exec(src, g)
         except SyntaxError as e:
@@ -88,7 +95,7 @@ def run_case(case):
     plain = fns["plain"]
     if case.get("twin"):
         # an unrelated function decorated EARLIER in the process: same name, module and annotations, but every default is None
-        g2 = {"A": A, "DFLT": None, "RESULT": result_obj, "LOG": [], "__name__": "genmod"}
+        g2 = {"A": A, "DFLT": None, "RESULT": result_obj, "LOG": [], "__name__": "genmod", "Tok": type("Tok", (), {})}
         try:
             exec(src, g2)
             jaxtyped(typechecker=tc)(g2[case["fname"]])
@@ -168,10 +175,21 @@ def run_case(case):
             out["descriptor_types"] = (type(Cp.__dict__["m"]).__name__, type(Cw.__dict__["m"]).__name__)
         except BaseException as e:  # noqa
             out["descriptor_types"] = ("?", "error:%s" % type(e).__name__)
+    if case.get("swap_defaults"):
+        # the original's defaults are replaced AFTER decoration: a call that omits them must see the new ones, as plain code does
+        newd = np.zeros((4,), "float32")
+        for fn in (plain, fns["wrapped"]):
+            tgt = getattr(fn, "__wrapped__", fn) if case["callable"] == "wraps" else fn
+            if getattr(tgt, "__defaults__", None):
+                tgt.__defaults__ = tuple(newd for _ in tgt.__defaults__)
+            if getattr(tgt, "__kwdefaults__", None):
+                tgt.__kwdefaults__ = {k: newd for k in tgt.__kwdefaults__}
+    def mk(v):
+        return Tok() if v[0] == "tok" else TokOther() if v[0] == "tok_other" else mkval(v)
     calls = []
     for call in case["calls"]:
-        args = [mkval(v) for v in call["args"]]
-        kwargs = {k: mkval(v) for k, v in call["kwargs"].items()}
+        args = [mk(v) for v in call["args"]]
+        kwargs = {k: mk(v) for k, v in call["kwargs"].items()}
         a = outcome(plain, args, kwargs, case["callable"], logs["plain"])
         b = outcome(wrapped_fn, args, kwargs, case["callable"], logs["wrapped"])
         same_ret = (a[0] == b[0]) and (a[1] == b[1] or (a[0] == "ret" and a[1] == id(result_obj) == b[1]))
